@@ -273,6 +273,30 @@ func loadImpl(a map[string]any) (res any) {
 			}
 		}
 	}
+	// LAST (it writes into the loaded object): the signable bytes follow the metadata - canonicalise,
+	// change a NESTED value in place (first word of a link's command / name of a layout's first step;
+	// no field of the Metablock is re-assigned), canonicalise again: the bytes of the content as it is
+	// NOW (seeded change c11-signable-cache-aliases-live-object)
+	out["signable_after_poke"] = nil
+	{
+		mb := &intoto.Metablock{Signed: md.GetPayload()}
+		if _, err := mb.GetSignableRepresentation(); err == nil {
+			switch pl := mb.Signed.(type) {
+			case intoto.Link:
+				if len(pl.Command) > 0 {
+					pl.Command[0] = "poked~!"
+				}
+			case intoto.Layout:
+				if len(pl.Steps) > 0 {
+					pl.Steps[0].Name = "poked~!"
+				}
+			}
+			if b, err := mb.GetSignableRepresentation(); err == nil {
+				out["signable_after_poke"] = string(b)
+			}
+		}
+	}
+
 	return out
 }
 
